@@ -1490,6 +1490,27 @@ fn execute_linewise(mut stream: Box<dyn BufRead>, args: &Opts) -> String {
 	format_output(args, fmt_lines)
 }
 
+/// Write the outputs of a serial `-i` run back to their files, creating backups first if asked to.
+///
+/// Called only after every file has been read and processed, so that a failure in a later file
+/// leaves all files untouched.
+fn write_back_files(args: &Opts, pending_writes: Vec<(PathBuf,String)>) {
+	for (path, output) in pending_writes {
+		if args.backup_files {
+			let extension = args.backup_extension.as_deref().unwrap_or("bak");
+			let backup_path = path.with_extension(format!(
+					"{}.{extension}",
+					path.extension()
+					.and_then(|ext| ext.to_str())
+					.unwrap_or("")
+			));
+
+			fs::copy(&path, &backup_path).unwrap_or_else(complain_and_exit);
+		}
+		fs::write(&path, output).unwrap_or_else(complain_and_exit);
+	}
+}
+
 /// The pathway for when the `--linewise` flag is set
 ///
 /// Each route in this function operates on individual lines from the input
@@ -1501,6 +1522,7 @@ fn exec_linewise(args: &Opts) {
 		// So using it in pool.install() doesn't work. We have to initialize it in the closure there.
 		let mut lines = vec![];
 		let mut json_data = vec![];
+		let mut pending_writes = vec![];
 		if !args.files.is_empty() {
 			for path in &args.files {
 				let input = fs::read_to_string(path).unwrap_or_else(complain_and_exit);
@@ -1521,18 +1543,8 @@ fn exec_linewise(args: &Opts) {
 				}
 				let mut output = format_output(args, std::mem::take(&mut lines));
 				if args.edit_inplace {
-					if args.backup_files {
-						let extension = args.backup_extension.as_deref().unwrap_or("bak");
-						let backup_path = path.with_extension(format!(
-								"{}.{extension}",
-								path.extension()
-								.and_then(|ext| ext.to_str())
-								.unwrap_or("")
-						));
-
-						fs::copy(path, &backup_path).unwrap_or_else(complain_and_exit);
-					}
-					fs::write(path, std::mem::take(&mut output)).unwrap_or_else(complain_and_exit);
+					// Written back only once every file has been processed (all or nothing)
+					pending_writes.push((path.clone(), std::mem::take(&mut output)));
 				} else {
 					if args.files.len() > 1 {
 						writeln!(stdout,"--- {}", path.display()).ok();
@@ -1540,6 +1552,7 @@ fn exec_linewise(args: &Opts) {
 					writeln!(stdout, "{output}").ok();
 				}
 			}
+			write_back_files(args, pending_writes);
 			if !args.json {
 				// If we are not outputting JSON, we can just return here
 				return;
@@ -1604,6 +1617,7 @@ fn exec_files(args: &Opts) {
 	let mut json_data = vec![];
 	if args.single_thread {
 		let mut stdout = io::stdout().lock();
+		let mut pending_writes = vec![];
 		for path in &args.files {
 			let content = fs::read_to_string(path).unwrap_or_else(complain_and_exit);
 			match execute(args,content, Some(path.clone())) {
@@ -1614,18 +1628,8 @@ fn exec_files(args: &Opts) {
 					}
 					let mut output = format_output(args, output);
 					if args.edit_inplace {
-						if args.backup_files {
-							let extension = args.backup_extension.as_deref().unwrap_or("bak");
-							let backup_path = path.with_extension(format!(
-									"{}.{extension}",
-									path.extension()
-									.and_then(|ext| ext.to_str())
-									.unwrap_or("")
-							));
-
-							fs::copy(path, &backup_path).unwrap_or_else(complain_and_exit);
-						}
-						fs::write(path, std::mem::take(&mut output)).unwrap_or_else(complain_and_exit);
+						// Written back only once every file has been processed (all or nothing)
+						pending_writes.push((path.clone(), std::mem::take(&mut output)));
 					} else {
 						if args.files.len() > 1 {
 							writeln!(stdout,"--- {}", path.display()).ok();
@@ -1636,6 +1640,7 @@ fn exec_files(args: &Opts) {
 				Err(e) => eprintln!("vicut: {e}"),
 			};
 		}
+		write_back_files(args, pending_writes);
 		if args.json {
 			let json = format_output_json_files(json_data);
 			write!(stdout, "{json}").ok();
